@@ -90,14 +90,23 @@ const (
 	FaultKeyNoCert   = "key_without_certificate"
 	FaultCertNoKey   = "certificate_without_key"
 	FaultEmptyCert   = "empty_certificate"
-	FaultGarbageCert = "garbage_certificate" // unjudged stress kind
-	FaultCtx         = "context_cancelled"   // the request's context was cancelled when the call was made
-	FaultPartial     = "partial_then_error"  // user lookups: part of the record is delivered, then the call fails
-	FaultTimeout     = "timeout_error"       // the call fails with a timeout-class error that wraps context.DeadlineExceeded
-	FaultPoolClosed  = "pool_closed_error"   // the call fails with an error that wraps context.Canceled
-	FaultNilNil      = "nil_without_error"   // lookups: no record and no error
-	FaultTemporary   = "temporary_error"     // the call fails with a Temporary()/Timeout() error that wraps no context error
+	FaultGarbageCert = "garbage_certificate"  // unjudged stress kind
+	FaultCtx         = "context_cancelled"    // the request's context was cancelled when the call was made
+	FaultPartial     = "partial_then_error"   // user lookups: part of the record is delivered, then the call fails
+	FaultTimeout     = "timeout_error"        // the call fails with a timeout-class error that wraps context.DeadlineExceeded
+	FaultPoolClosed  = "pool_closed_error"    // the call fails with an error that wraps context.Canceled
+	FaultNilNil      = "nil_without_error"    // lookups: no record and no error
+	FaultTemporary   = "temporary_error"      // the call fails with a Temporary()/Timeout() error that wraps no context error
+	FaultPanicString = "panics_with_a_string" // the storage itself crashes: panic("...") / log.Panicf
+	FaultPanicError  = "panics_with_an_error" // the storage itself crashes: panic(err)
 )
+
+// PanicMarker is contained in the value of every panic the simulated storage raises.
+const PanicMarker = "injected storage panic"
+
+// IsInjectedPanic tells a crash of the simulated storage (which may end a request without a reply) from a crash of the
+// code under test.
+func IsInjectedPanic(text string) bool { return strings.Contains(text, PanicMarker) }
 
 // FaultPlan decides whether the occ-th (1-based) call of op inside the request
 // tagged tag fails, and how. "" = no fault.
@@ -125,7 +134,7 @@ type AuthReq struct {
 	reads int
 	// AfterRead, when set, runs after the n-th (1-based) accessor call on this record has taken its value and before
 	// that value is returned to the handler: the place where a login UI working on the same record gets its turn.
-	AfterRead func(field string, n int)
+	AfterRead func(field string, n int) `json:"-"`
 }
 
 func (a *AuthReq) SetDone(b bool) { a.done.Store(b) }
@@ -348,6 +357,10 @@ func (temporaryError) Temporary() bool { return true }
 // errFor returns the error a failing call reports for the given fault kind.
 func errFor(kind string) error {
 	switch kind {
+	case FaultPanicString:
+		panic(PanicMarker + ": connection state corrupt")
+	case FaultPanicError:
+		panic(fmt.Errorf("%s: %w", PanicMarker, ErrInjected))
 	case FaultTimeout:
 		return timeoutError{}
 	case FaultTemporary:
@@ -455,7 +468,7 @@ func (w *World) GetCA(ctx context.Context) (*key.CertificateAndKey, error) {
 
 func (w *World) keyFault(f string, base *key.CertificateAndKey) (*key.CertificateAndKey, error) {
 	switch f {
-	case FaultError, FaultTimeout, FaultTemporary, FaultPoolClosed, FaultCtx:
+	case FaultError, FaultTimeout, FaultTemporary, FaultPoolClosed, FaultCtx, FaultPanicString, FaultPanicError:
 		return nil, errFor(f)
 	case FaultNilRecord:
 		return nil, nil
@@ -474,9 +487,8 @@ func (w *World) keyFault(f string, base *key.CertificateAndKey) (*key.Certificat
 func (w *World) GetMetadataSigningKey(ctx context.Context) (*key.CertificateAndKey, error) {
 	w.delay("GetMetadataSigningKey")
 	f := w.fault(ctx, "GetMetadataSigningKey")
-	k, err := w.keyFault(f, w.MetaKey)
 	w.log(Event{Tag: TagOf(ctx), Op: "GetMetadataSigningKey", Res: f, Err: f != ""})
-	return k, err
+	return w.keyFault(f, w.MetaKey)
 }
 
 func (w *World) GetResponseSigningKey(ctx context.Context) (*key.CertificateAndKey, error) {
@@ -489,9 +501,8 @@ func (w *World) GetResponseSigningKey(ctx context.Context) (*key.CertificateAndK
 			base = kk
 		}
 	}
-	k, err := w.keyFault(f, base)
 	w.log(Event{Tag: TagOf(ctx), Op: "GetResponseSigningKey", Res: f, Err: f != ""})
-	return k, err
+	return w.keyFault(f, base)
 }
 
 func (w *World) GetEntityByID(ctx context.Context, entityID string) (*serviceprovider.ServiceProvider, error) {
